@@ -60,9 +60,10 @@ int main(int argc, char **argv)
                 fputs(",\"norm\":", f); put_value(f, (double)a_real_norm_((a_size)n, p, (a_size)c));
                 fputs(",\"scaled\":[", f);
                 int first = 1;
-                for (int sh = -1000; sh <= 1000; sh += 500)
+                for (int sh = -1500; sh <= 1000; sh += 500)
                 {
-                    int e = sizeof(a_real) == 4 ? sh / 10 : sh;
+                    /* -1500 stands for the subnormal range: 2^-1070 (float 2^-145) */
+                    int e = sh == -1500 ? (sizeof(a_real) == 4 ? -145 : -1070) : (sizeof(a_real) == 4 ? sh / 10 : sh);
                     for (int i = 0; i < 24; ++i) { s[i] = (a_real)ldexp((double)p[i], e); }
                     double r = ldexp((double)a_real_norm_((a_size)n, s, (a_size)c), -e);
                     if (!first) { fputc(',', f); }
